@@ -1,19 +1,36 @@
 #!/bin/bash
-# tool/seedcheck.sh <ID> [more check ids...]: applies seeded/<ID>/patch.diff to /repo, runs the checks, reverts.
+# tool/seedcheck.sh <ID> [check ids...]: applies seeded/<ID>/patch.diff to a scratch copy of /repo
+# (outside /repo and /verif, removed afterwards) and runs the quick checks on the copy.
 set -u
 ID=$1; shift
-CHECKS="${@:-$ID}"
+CHECKS="${@:-${ID%b}}"
+CHECKS="${CHECKS%c}"
 P=/verif/seeded/$ID/patch.diff
-cd /repo || exit 2
-if [ -n "$(git status --porcelain --untracked-files=no)" ]; then echo "/repo has uncommitted changes"; exit 2; fi
-git apply --check "$P" || { echo "patch does not apply"; exit 2; }
-git apply "$P"
+D=$(mktemp -d /tmp/seedcheck_XXXXXX)
+rsync -a --exclude _build --exclude .git /repo/ "$D/"
+( cd "$D" && patch -p1 --quiet < "$P" ) || { echo "patch does not apply"; rm -rf "$D"; exit 2; }
 cd /verif
 for c in $CHECKS; do
-  ./check $c --tier quick > /tmp/seedcheck_$c.log 2>&1; rc=$?
+  python3 - "$c" "$D" > /tmp/seedcheck_$$_$c.log 2>&1 <<'E'
+import sys, importlib
+sys.path.insert(0, "/verif")
+from mpsa import evidence, selftest
+from mpsa.facts import AnalysisBroken
+prop, repo = sys.argv[1], sys.argv[2]
+known = {k["key"] for k in evidence.load_known() if k.get("status") == "known"}
+try:
+    r = selftest.run_on(prop, repo)
+except AnalysisBroken as e:
+    print("ANALYSIS-BROKEN property=%s: %s" % (prop, e)); sys.exit(2)
+fails = [(rl.full_key(i), i) for rl in r.rules for i in rl.instances if not i["ok"] and rl.full_key(i) not in known]
+for k, i in fails:
+    print("  FAIL %s at %s: %s" % (k, i.get("where"), i.get("detail")))
+    print("VIOLATION property=%s" % prop)
+sys.exit(1 if fails else 0)
+E
+  rc=$?
   echo "== check $c on seeded/$ID: exit $rc"
-  grep -E "FAIL|VIOLATION|BROKEN" /tmp/seedcheck_$c.log | cut -c1-400 | head -8
-  cp /tmp/seedcheck_$c.log /verif/seeded/$ID/check_$c.log; rm -f /tmp/seedcheck_$c.log
+  grep -E "FAIL|VIOLATION|BROKEN|Error" /tmp/seedcheck_$$_$c.log | cut -c1-400 | head -8
+  cp /tmp/seedcheck_$$_$c.log /verif/seeded/$ID/check_$c.log; rm -f /tmp/seedcheck_$$_$c.log
 done
-git -C /repo checkout -- . 
-git -C /repo status --porcelain --untracked-files=no
+rm -rf "$D"
